@@ -6,6 +6,8 @@ CHECKS = {
             'field read/write-set (effect) analysis over all accumulator classes + CFG must-pass queries + table agreement'),
     'C05': ('every failure store is followed by notify_all on both queue conditions on all paths; failure stored before stop announced; enqueue_done true once a failure is recorded; producer waits re-check the stop flag; timed-out waits reach only raise TimeoutError; maybe_stop wakes both sides; consumer iterators stop queue and pool on every exceptional path',
             'CFG must-pass-through path queries with interprocedural must-notify summaries over the lockset engine'),
+    'C06': ('exactly one disposition per task on every path of both task-inspection loops; retried tasks re-enter the work list with their error cleared and are scheduled before new tasks; generator return value forwarded only on the StopIteration marker and other exception elements raised; STOP marker put on the state queue on every exit; acquired workers released on every exit (R-C20-6)',
+            'CFG path enumeration over loop bodies, must-pass-through and dominance queries'),
     'C07': ('each confusion-matrix rate reached from the dispatch equals its textbook rational function incl. zero-denominator convention; the four counts are exactly the minterms of (true, positive) with correct provenance; aliases agree; every enum member is dispatched; per-row retrieval rates equal their definitions with arguments in the right roles and are stored under their own key; one-shot API passes its own member and forwards every parameter; closed-form statistics (MeanState, Tjur, Pearson, SPD)',
             'symbolic extraction into exact rational-function normal forms (uninterpreted safe_divide/sqrt/min), boolean minterm evaluation, table agreement'),
     'C09': ('SequenceDataSource.shard is the balanced contiguous partition for ALL n,K,k,offset and nesting (start_k=S+k*q+min(k,r), end_k=start_{k+1}); shard state record/replay agree field-for-field incl. parent chain; __len__ and iteration bounds agree; every consumed element advances the index once; round-robin test is index % num_shards != shard_index',
@@ -17,6 +19,8 @@ CHECKS = {
     'C04': ('lockset + CFG analysis of IteratorQueue: CV discipline per calling context, predicate loops, lock balance, lock-order acyclicity, wake-up obligations, end-of-stream payload, single transfer through put/get wrappers',
             'context-sensitive lockset dataflow over a hand-built exceptional CFG; must-pass-through path queries; protocol table'),
 }
+CHECKS['C20'] = ('registry table only touched under its lock; refresh = one critical section with dead guard and monotone max; single audited writers; liveness = now - last heartbeat < threshold fed only the send time of completed non-failed calls; ownership test-and-set under the state lock; every acquiring pool-level operation releases on every return/raise/generator-close path; next_idle_worker never keeps an unfit worker',
+                 'lockset analysis + CFG dominance/must-pass-through (acquire/release pairing incl. exceptional and generator-close exits)')
 NA = {
     'C02': 'slice membership and per-slice aggregate equality quantify over runtime mask/slice-key values produced by user functions; no structural clause separates a correct from an off-by-one mask builder',
     'C03': 'equality of outputs across threaded/fused/sharded executions is a relation between executions; its only structural ingredients (shared-input locking, merge count) are claimed under C13 and C16',
